@@ -35,18 +35,33 @@ def last_summary(path):
     return rows, [r for r in rows if r['kind'] == 'summary'][-1]
 
 
+def translate_gov(ck):
+    """Regenerate gen/Gen_Gov.v only: the other generators' anchors belong to other properties and a
+    lost anchor there must not break this check (and vice versa)."""
+    import sys
+    import vlib
+    with vlib.Lock('coq'):
+        rc, out, _ = vlib.sh([sys.executable, vlib.ROOT + '/tools/translate.py', '--repo', vlib.REPO, '--out', vlib.COQ + '/gen',
+                              '--only', 'gen_gov'], timeout=300)
+    lost = [l for l in out.splitlines() if l.startswith('LOST-ANCHOR')]
+    ck.ob('translator regenerates gen/Gen_Gov.v from the repository working tree', rc == 0 and not lost, 'generated',
+          out if (rc != 0 or lost) else '')
+    ck.trust('translator /verif/tools/translate.py + tools/gen_gov.py (regex extraction of constants, tables and call sites from Rust source)')
+    return rc == 0 and not lost
+
+
 def run(ck):
     quick = ck.tier == 'quick'
     ck.rule = ('(a) generated control-plane histories (3-5 principals, 2 groups, 2-8 grants scoped by kind/type/'
                'classification/element with conditions and constraints, 0-6 delegations incl. re-delegation chains up to '
                'length 11 and cycles, policy allow/deny statements with obligations, then revoke/suspend/republish/'
-               'regroup/owner changes), the stored state dumped after every step and 30 requests decided on it; '
-               '(c) ~55 KML/KQL/META commands (benign, refused, hostile; text and injected-AST path) x 2 principals each, '
+               'regroup/owner changes; every third scenario gives delegators two delegable Grants of different shapes - a narrow one carrying the action, a broad one without it - and direct Delegations fitting or exceeding the narrow one), the stored state dumped after every step, 25 random requests plus requests aimed through every direct Delegation decided on it, each delegate decision compared with its delegator\'s decision for the same request; '
+               '(c) ~55 KML/KQL/META commands (benign, refused, hostile; text and injected-AST path) x 2 principals each plus an EXPORT under a two-party approval (refused / allowed once, approvals spent / refused), '
                'snapshots compared after every command; (b) 6 authority shapes (ceiling, classification list, kind scope, '
-               'policy allow statement, field mask, result cap) x generated populations, ~45 commands on 3 stores. Non-trivial = a '
+               'policy allow statement, field mask, result cap) x generated populations, ~45 commands on 3 stores, plus delegate-vs-delegator id sets for two-Grant delegators. Non-trivial = a '
                'distinct state with >= 1 delegation or policy statement (a), a distinct (principal, command, outcome) (c), '
                'a distinct (shape, hidden count, command) with hidden elements present (b)')
-    ck.translate()
+    translate_gov(ck)
     ck.coq(['Gov/Props.v'], ['Gov', 'gen'], model_targets=['Gov/Run.vo'])
     ck.assume('JSON columns (scope, conditions, constraints, statements) hold well-formed typed values; the model reads their typed contents',
               'row ids are unique and query_all_ids returns them ascending (the order candidates are tried in)',
@@ -59,8 +74,8 @@ def run(ck):
     # ------------------------------------------------------------------ (a) decision level
     out = ck.work + '/decide.jsonl'
     args = ['decide', '--out', out] + (['--scenarios', '16', '--steps', '5', '--requests', '25'] if quick
-                                       else ['--scenarios', '160', '--steps', '8', '--requests', '40'])
-    rc, text = ck.run_harness(binary, args, timeout=2400)
+                                       else ['--scenarios', '40', '--steps', '6', '--requests', '30'])
+    rc, text = ck.run_harness(binary, args, timeout=2400 if quick else 5400)
     if ck.ob('harness decide ran', rc == 0 and os.path.exists(out), 'correspondence', text[-2000:]):
         rows, summary = last_summary(out)
         model_rows = [r for r in rows if r['kind'] == 'model']
@@ -72,7 +87,7 @@ def run(ck):
               'bounded by its delegator (%d decisions on %d stored states)' % (summary['evaluations'], summary['states']),
               summary['oracle_failures'] == 0, 'correspondence', json.dumps(summary['failures'][:2])[:3000])
         cases = [r['case'] for r in model_rows]
-        res = ck.eval_cases(IMPORTS, 'state_case', 'check_state', cases, shard=12, timeout=900, label='decide')
+        res = ck.eval_cases(IMPORTS, 'state_case', 'check_state', cases, shard=8, timeout=2700, label='decide')
         bad = [i for i, r in enumerate(res) if r is not True]
         for r in model_rows:
             cp = r['case']['t'][0]
@@ -92,7 +107,7 @@ def run(ck):
 
     # ------------------------------------------------------------------ (c) no command changes authority
     out = ck.work + '/escalate.jsonl'
-    rc, text = ck.run_harness(binary, ['escalate', '--out', out, '--rounds', '2' if quick else '10'], timeout=2400)
+    rc, text = ck.run_harness(binary, ['escalate', '--out', out, '--rounds', '2' if quick else '6'], timeout=2400)
     if ck.ob('harness escalate ran', rc == 0 and os.path.exists(out), 'monitor', text[-2000:]):
         _, summary = last_summary(out)
         ck.count(summary['evaluations'])
@@ -108,7 +123,7 @@ def run(ck):
 
     # ------------------------------------------------------------------ (b) engine-level non-interference
     out = ck.work + '/ni.jsonl'
-    rc, text = ck.run_harness(binary, ['ni', '--out', out, '--scenarios', '6' if quick else '48'], timeout=2400)
+    rc, text = ck.run_harness(binary, ['ni', '--out', out, '--scenarios', '6' if quick else '24'], timeout=2400)
     if ck.ob('harness ni ran', rc == 0 and os.path.exists(out), 'correspondence', text[-2000:]):
         _, summary = last_summary(out)
         ck.count(summary['evaluations'])
